@@ -8,7 +8,8 @@ From LV Require Import Base.Bytes Base.Sx Model.Obj Model.DocQ Model.Writer Mode
   Model.Loader Model.LoaderExt Model.LoaderEnc Model.LoaderCrypt Model.Crypto.Word Model.Crypto.Handler Model.Crypto.Concrete
   Proofs.RealProofs Proofs.ObjectRtProofs Proofs.SaveProofs Spec.SaveSpec Proofs.LoadProofsXref
   Proofs.CryptoProofsObject Proofs.CryptoProofsDoc Proofs.CryptoProofsAuth Proofs.CryptoProofsExamples
-  Proofs.CryptoProofsAES Proofs.CryptoProofsSHA Proofs.CryptoProofsRT Proofs.ComposeCrypt.
+  Proofs.CryptoProofsAES Proofs.CryptoProofsSHA Proofs.CryptoProofsRT Proofs.LoadProofsFull Proofs.ComposeCrypt
+  Proofs.ComposeCryptDomain.
 
 Local Open Scope N_scope.
 
@@ -144,6 +145,48 @@ Proof.
   destruct (encrypt_save_load_decrypt concrete md5_len16 concrete_aes_ok
               Proofs.CryptoProofsSHA.sha256_length Proofs.CryptoProofsSHA.sha384_length Proofs.CryptoProofsSHA.sha512_length
               (fun _ => false) XStream ex_doc ex_v2 ex_rnd ex_ivs st d1 Hv2 Hmax Htr Etry Eenc Hdom S1 K1 Hs2)
+    as [x [_ [_ [Hkeep _]]]].
+  exact (Hkeep _ Hauth).
+Qed.
+
+(* ---------- the same example for the composition WITHOUT a hypothesis on the shape of the encrypted document
+   (Proofs/ComposeCryptDomain.v): the PLAIN example document is in C01's domain [savable], outside the known class,
+   with room for one more object number; [savable_enc d1] and [known_deep d1 = false] are then CONSEQUENCES
+   (encrypt_preserves_savable), not tests on the computed d1 ---------- *)
+Definition compose_example_dom_statement (st : estate) (d1 : doc) : Prop :=
+  try_from_version concrete ex_doc ex_v2 ex_rnd = Ok st /\ doc_encrypt concrete st ex_doc ex_ivs = DOk d1 tt /\
+  version_in_domain ex_v2 /\ max_id_ok ex_doc /\ savable ex_doc /\ known_deep ex_doc = false /\
+  d_max_id ex_doc + 3 < u32_mod /\ small_file XTable d1 /\ small_file XStream d1 /\
+  st_i64 st /\ savable_enc d1 /\ known_deep d1 = false /\
+  authenticate_password concrete d1 [] = Err D_IncorrectPassword /\
+  right_password concrete d1 ex_v2 ex_user /\
+  load_crypt concrete (fun _ => false) (so_bytes (save XTable d1)) = CLoad (LOk (reloaded XTable d1) XTTable).
+
+Theorem compose_example_dom :
+  match ex_st, ex_d1 with Some st, Some d1 => compose_example_dom_statement st d1 | _, _ => False end.
+Proof.
+  unfold ex_st, ex_d1.
+  cbv iota beta.
+  match goal with |- compose_example_dom_statement ?a ?b => set (st := a); set (d1 := b) end.
+  unfold compose_example_dom_statement.
+  assert (Etry : try_from_version concrete ex_doc ex_v2 ex_rnd = Ok st) by (vm_compute; reflexivity).
+  assert (Eenc : doc_encrypt concrete st ex_doc ex_ivs = DOk d1 tt) by (vm_compute; reflexivity).
+  assert (S0 : savable ex_doc).
+  { apply savable_of_enc; [apply savable_encb_sound; vm_compute; reflexivity | vm_compute; reflexivity]. }
+  assert (K0 : known_deep ex_doc = false) by (vm_compute; reflexivity).
+  assert (Hroom : d_max_id ex_doc + 3 < u32_mod) by (vm_compute; reflexivity).
+  assert (Hs1 : small_file XTable d1) by (vm_compute; reflexivity).
+  assert (Hs2 : small_file XStream d1) by (vm_compute; reflexivity).
+  assert (Hauth : authenticate_password concrete d1 [] = Err D_IncorrectPassword) by (vm_compute; reflexivity).
+  destruct ex_hyps as [Hmax [Htr _]]. destruct ex_versions as [_ [Hv2 _]].
+  pose proof (try_from_version_i64 concrete ex_doc ex_v2 ex_rnd st Hv2 Etry) as Hst.
+  destruct (encrypt_preserves_savable concrete XTable st ex_doc ex_ivs d1 S0 K0 Hmax Hroom Hst Eenc Hs1) as [S1 K1].
+  split; [exact Etry|]. split; [exact Eenc|]. split; [exact Hv2|]. split; [exact Hmax|]. split; [exact S0|].
+  split; [exact K0|]. split; [exact Hroom|]. split; [exact Hs1|]. split; [exact Hs2|]. split; [exact Hst|].
+  split; [exact S1|]. split; [exact K1|]. split; [exact Hauth|]. split; [left; reflexivity|].
+  destruct (encrypt_save_load_decrypt_dom concrete md5_len16 concrete_aes_ok
+              Proofs.CryptoProofsSHA.sha256_length Proofs.CryptoProofsSHA.sha384_length Proofs.CryptoProofsSHA.sha512_length
+              (fun _ => false) XTable ex_doc ex_v2 ex_rnd ex_ivs st d1 Hv2 Hmax S0 K0 Hroom Etry Eenc Hs1)
     as [x [_ [_ [Hkeep _]]]].
   exact (Hkeep _ Hauth).
 Qed.
